@@ -55,5 +55,9 @@ StepImpl(prog, R, kind, j, dev) == CASE kind = "stepIn" -> Succ(R, j)
                                 [] kind = "stepOut" -> StepOutRun(R, j, dev)
 SExec(prog, R, s, kind, dev) == [s EXCEPT !.ix = StepImpl(prog, R, kind, s.ix, dev), !.sp = "pread", !.kind = kind]
 SetBps(s, B) == [s EXCEPT !.bps = B]
+(* a step taken where the uninterrupted run ends (brk, failing assertion) ends the test: Message + Disconnected, no pause.  *)
+(* With "StepSwallowsTestEnd" the result of the step is dropped: the machine stays (and a swallowed assertion is gone).     *)
+SEnds(R, s, dev) == AtEnd(R, s.ix) /\ "StepSwallowsTestEnd" \notin dev
+SEnd(s) == [s EXCEPT !.conn = FALSE, !.chan = Append(@, DiscEv)]
 
 ================================================================================
